@@ -90,7 +90,7 @@ struct Transpo {
     sels: [u16; 4],
 }
 
-fn transpositions(ctx: &Ctx, cases: u32) -> PartResult {
+pub fn transpositions(ctx: &Ctx, cases: u32, prefix: &'static str) -> PartResult {
     run_prop(
         ctx,
         "transpositions",
@@ -165,7 +165,7 @@ fn transpositions(ctx: &Ctx, cases: u32) -> PartResult {
             b2.set_halfmove_clock(b1.halfmove_clock());
             b2.set_fullmove_number(b1.fullmove_number());
             if b1 != b2 || b1.checkers() != b2.checkers() || b1.pinned() != b2.pinned() || b1.hash() != b2.hash() {
-                return Err(Failure::new("C03:transposition-not-equal", format!("from {} (start {} ops [{}]): [{} {} {} {}] and [{} {} {} {}] reach the same position but the boards compare unequal", p0.to_fen(true), origin, hist.join(","), a.text(), x.text(), b.text(), y.text(), b.text(), x.text(), a.text(), y.text()))
+                return Err(Failure::new(&format!("{}:transposition-not-equal", prefix), format!("from {} (start {} ops [{}]): [{} {} {} {}] and [{} {} {} {}] reach the same position but the boards compare unequal", p0.to_fen(true), origin, hist.join(","), a.text(), x.text(), b.text(), y.text(), b.text(), x.text(), a.text(), y.text()))
                     .with("start", origin)
                     .with("ops", hist.join(","))
                     .with("route_a", format!("{},{},{},{}", a.text(), x.text(), b.text(), y.text()))
@@ -210,7 +210,7 @@ pub fn run(ctx: &Ctx) -> Report {
             })
         },
     ));
-    rep.add(transpositions(ctx, ctx.tier.scale(60_000, 25)));
+    rep.add(transpositions(ctx, ctx.tier.scale(60_000, 25), "C03"));
     rep
 }
 
